@@ -382,6 +382,15 @@ Definition run_docemit (fn : sexp) (args : list sexp) : option sexp :=
       Some (enc_outcome (enc_pair enc_str enc_ir) (emit_docstring w st ww edd i))
     | _ => None
     end
+  else if is_sym "fill_at" fn then
+    (* textwrap.fill(s, width=w), asked at an explicit width *)
+    match args with
+    | [w; t] =>
+      let? w := dec_nat w in
+      let? t := dec_str t in
+      Some (enc_outcome enc_str (fill w t))
+    | _ => None
+    end
   else if is_sym "to_docstring" fn then
     match args with
     | [w; i; edd; st; il; et; est; ww] =>
